@@ -22,7 +22,7 @@ claim("C05",
       NOTE, "DESIGN.md section 4 C05")
 claim("C06",
       "bounded-exhaustive sweep over all 512 flag values x reserved bits x payloads x edge sequence numbers; cookie function analysed over >= 2^18 tuples (determinism, sensitivity, collision count)",
-      "The SYN rule is decided for every flag value; the cookie clause is decided as functional determinism plus sensitivity on learned cookies (collisions counted against the 2^-32 expectation), under 3 keys.",
+      "The SYN rule is decided for every flag value; the cookie clause is decided as functional determinism plus sensitivity on learned cookies (collisions counted against the 2^-32 expectation; every single address bit of 21 base addresses of every class, as source and as destination, must change the cookie), under 3 keys.",
       NOTE, "DESIGN.md section 4 C06")
 claim("C07",
       "explicit-state BFS over the real connection table (hook H2 digest) against a reference connection model",
